@@ -115,8 +115,11 @@ pub enum StepOutcome {
 }
 
 thread_local! {
+    pub static CURRENT_TASK: std::cell::RefCell<String> = const { std::cell::RefCell::new(String::new()) };
     pub static LAST_PANIC: std::cell::RefCell<Option<String>> = const { std::cell::RefCell::new(None) };
 }
+
+pub static TRACE_ON: std::sync::atomic::AtomicBool = std::sync::atomic::AtomicBool::new(false);
 
 pub fn install_panic_hook() {
     use std::sync::Once;
@@ -333,6 +336,10 @@ impl Exec {
         let mut cx = Context::from_waker(&waker);
         self.tasks[id].polls += 1;
         self.current_task = Some(id);
+        if TRACE_ON.load(std::sync::atomic::Ordering::Relaxed) {
+            let nm = format!("{}@{}", self.tasks[id].name, self.step);
+            CURRENT_TASK.with(|c| *c.borrow_mut() = nm);
+        }
         let mut fut = match self.tasks[id].fut.take() {
             Some(f) => f,
             None => return,
